@@ -12,6 +12,10 @@ struct Rewriter {
   specialized_enum_type_definition_names: HashSet<mir::TypeNameId>,
   specialized_function_names: HashSet<mir::FunctionName>,
   specialized_closure_definitions: Vec<mir::ClosureTypeDefinition>,
+  /// The first specialized closure type of each function type. Closure types are structural, so
+  /// all the other closure types that specialize to the same function type resolve to it.
+  canonical_closure_type_names: HashMap<mir::FunctionType, mir::TypeNameId>,
+  aliased_closure_type_names: HashMap<mir::TypeNameId, mir::TypeNameId>,
   specialized_type_definitions: HashMap<mir::TypeNameId, mir::TypeDefinition>,
   specialized_functions: Vec<mir::Function>,
   symbol_table: mir::SymbolTable,
@@ -632,13 +636,18 @@ impl Rewriter {
         let original_fn_type = closure_def.function_type.clone();
         let rewritten_fn_type =
           self.rewrite_fn_type(heap, &original_fn_type, &solved_targs_replacement_map);
-        self.specialized_closure_definitions.push(mir::ClosureTypeDefinition {
-          name: mir_type_name,
-          function_type: rewritten_fn_type,
-        });
+        if let Some(canonical_name) = self.canonical_closure_type_names.get(&rewritten_fn_type) {
+          self.aliased_closure_type_names.insert(mir_type_name, *canonical_name);
+        } else {
+          self.canonical_closure_type_names.insert(rewritten_fn_type.clone(), mir_type_name);
+          self.specialized_closure_definitions.push(mir::ClosureTypeDefinition {
+            name: mir_type_name,
+            function_type: rewritten_fn_type,
+          });
+        }
       }
     }
-    mir::Type::Id(mir_type_name)
+    mir::Type::Id(*self.aliased_closure_type_names.get(&mir_type_name).unwrap_or(&mir_type_name))
   }
 
   fn type_permit_enum_boxed_optimization(&self, type_: &mir::Type) -> bool {
@@ -722,6 +731,8 @@ pub(super) fn perform_generics_specialization(
     specialized_enum_type_definition_names: HashSet::new(),
     specialized_function_names: HashSet::new(),
     specialized_closure_definitions: Vec::new(),
+    canonical_closure_type_names: HashMap::new(),
+    aliased_closure_type_names: HashMap::new(),
     specialized_type_definitions: HashMap::new(),
     specialized_functions: Vec::new(),
     symbol_table,
